@@ -163,9 +163,26 @@ Theorem C07_new_twice_is_fixpoint : forall p c o1 o2 prior w dir,
 Proof. exact new_twice_fixpoint. Qed.
 Print Assumptions C07_new_twice_is_fixpoint.
 
+(* -type=A,B (one file per type; Clean inactive): enum and rest, when every listed type name is declared by the same files in the
+   directory the first run found and in the one it left (true unless a generated file declares a type named like a listed one) *)
+Theorem C07_enum_specified_twice_is_fixpoint : forall p c, specified c = true -> forall o1 o2 prior w dir,
+  c_sub c = CEnum -> legal o1 -> legal o2 -> NoDup (keys prior) ->
+  (forall T, In T (c_types c) -> same_defs (mk_view (p_hw p) (disk_of p dir) []) (mk_view (p_hw p) (disk_of p prior) []) T) ->
+  run o1 p prior c = ODone w dir ->
+  exists w' dir', run o2 p dir c = ODone w' dir' /\ listing dir' = listing dir /\ Permutation w' w.
+Proof. exact enum_specified_twice_fixpoint. Qed.
+Print Assumptions C07_enum_specified_twice_is_fixpoint.
+
+Theorem C07_rest_specified_twice_is_fixpoint : forall p c, specified c = true -> forall o1 o2 prior w dir,
+  c_sub c = CRest -> rest_pkg_ok (p_hw p) -> legal o1 -> legal o2 -> NoDup (keys prior) ->
+  (forall T, In T (c_types c) -> same_defs (mk_view (p_hw p) (disk_of p dir) []) (mk_view (p_hw p) (disk_of p prior) []) T) ->
+  run o1 p prior c = ODone w dir ->
+  exists w' dir', run o2 p dir c = ODone w' dir' /\ listing dir' = listing dir /\ Permutation w' w.
+Proof. exact rest_specified_twice_fixpoint. Qed.
+Print Assumptions C07_rest_specified_twice_is_fixpoint.
+
 (* NOT PROVED (tied by the correspondence only): the fixpoint for `-type=*` without -file (Clean active: needs
-   clean c aio (write sm (clean c aio (write sm prior))) = clean c aio (write sm prior)), for -type=A,B (follows from
-   C07_twice_is_fixpoint_generic + C07_blind_specified_independent when no generated file declares a listed type name), and every
+   clean c aio (write sm (clean c aio (write sm prior))) = clean c aio (write sm prior)), the -type=A,B instance for new, and every
    history statement for map (that the mapper does not read its own ToX/FromX/ShootMap methods back). *)
 
 (* the analysis of a type never depends on the hand-written part of the view through generated files *)
